@@ -45,6 +45,11 @@ WRITE_EXEMPT = {
 BANNED_MODULE_PREFIXES = ("random", "numpy.random", "time", "uuid", "secrets", "datetime")
 BANNED_BUILTINS = {"id", "hash", "input"}
 BANNED_OS = {"urandom", "getpid", "times"}
+# callables that set process-wide state every later numeric call of the process runs under (module level or not): once one of
+# them runs, a public function's result / termination depends on that hidden state and not on its arguments alone
+PROCESS_STATE_SETTERS = {("numpy", "seterr"), ("numpy", "seterrcall"), ("numpy", "setbufsize"), ("warnings", "filterwarnings"),
+                         ("warnings", "simplefilter"), ("warnings", "resetwarnings"), ("sys", "setrecursionlimit"),
+                         ("sys", "setswitchinterval"), ("locale", "setlocale"), ("decimal", "setcontext")}
 
 FLOOR_FUNCTIONS = 120      # functions analysed (139 today)
 FLOOR_CALLS = 150          # intra-package call sites arity-checked (confirmed by reading: > 200 today)
@@ -137,6 +142,8 @@ def _nondet_events(ctx, mod):
                 hit = f"builtins.{nm}"
             elif om in ("os", "posix", "nt") and nm in BANNED_OS:
                 hit = f"os.{nm}"
+            elif (om.split(".")[0], nm) in PROCESS_STATE_SETTERS and isinstance(parent, ast.Call) and parent.func is node:
+                hit = f"procstate:{om.split('.')[0]}.{nm}"
             if hit:
                 out.append((node, hit))
         elif isinstance(node, ast.For):
@@ -200,6 +207,8 @@ def _run_pdy(ctx):
                         "mutating method, out=, np.put-family, writing callee) on a value that may alias one of its array/list parameters")
     res.rule("D-nondet", "no call/attribute in the package resolves into random, numpy.random, time, uuid, secrets, datetime, os.urandom, id(), hash(); no iteration over a set")
     res.rule("D-global", "no function mutates a module-level object in place")
+    res.rule("D-procstate", "no call in the package (module level included) resolves to a process-wide state setter: numpy.seterr / seterrcall / setbufsize, "
+             "warnings.filterwarnings / simplefilter / resetwarnings, sys.setrecursionlimit / setswitchinterval, locale.setlocale, decimal.setcontext")
     res.rule("D-default", "no parameter that a function stores into (directly or through a callee) has a mutable default value: a default is one object shared by "
                           "every call that omits the argument, i.e. hidden state between calls")
     res.rule("D-uninit", "an array created with np.empty / np.empty_like (not zero-sized) is written completely - a whole-array store, a permutation scatter, .fill(), "
@@ -263,6 +272,11 @@ def _run_pdy(ctx):
             continue
         for node, hit in evs:
             nsites += 1
+            if hit.startswith("procstate:"):
+                res.violation("D-procstate", mod, mod.enclosing_function_name(node), node,
+                              f"process-wide state set by the library: {hit[10:]} (every numeric call of the process, this package's included, runs under it from then on)",
+                              norm_text(node), "no call into a process-wide state setter")
+                continue
             res.violation("D-nondet", mod, mod.enclosing_function_name(node), node,
                           f"nondeterminism source reachable: {hit}", norm_text(node), "no reference into a nondeterministic API")
     res.ok("D-nondet", "package", f"{len(ctx.repo.package_modules())} modules scanned, {nsites} banned references")
